@@ -65,7 +65,9 @@
 //!
 //! # Ops (one line in, one line out; `bad-op` for anything malformed)
 //!
-//!  t-new <nclients> <max_clients> <timeout_s> <expire_s> [<nslots>]   -> ok
+//!  t-new <nclients> <max_clients> <timeout_s> <expire_s> [<nslots> [<chanmem>]]   -> ok
+//!        (<chanmem>: `max_memory_usage_bytes` of every channel on both sides instead of the default 5 MiB — a reliable
+//!         message longer than that makes renet disconnect the connection: a disconnect decided by the message layer)
 //!        server + relay with nslots (default nclients) front/back pairs + clients 0..nclients-1, ids 100+k
 //!  t-cnew <k> <id>            -> ok | err:..   (re)place the client of slot k: fresh token at the server's
 //!                                              virtual time, new socket, given id (relay queues are kept)
@@ -90,7 +92,9 @@
 //!        back socket or whose user data is not the token's; per slot with a client: its id, the
 //!        RenetClient status (connected | connecting | disc:<renet reason>) and
 //!        transport.disconnect_reason() (netcode reason or -)
-//!  t-cdisc <k> | t-ctdisc <k> | t-sdisc <id> | t-sdiscall   -> ok
+//!  t-cdisc <k> | t-ctdisc <k> | t-sdisc <id> | t-sdiscall | t-rdiscall   -> ok
+//!        (RenetClient::disconnect | client transport disconnect | RenetServer::disconnect | server transport
+//!         disconnect_all | RenetServer::disconnect_all)
 //!  t-stray <k> <i>            -> ok | err:noitem | err:noclient   item i of slot k's down queue is sent to the client's socket
 //!                                              from the relay's BACK socket (not the client's server address): discarded
 //!  t-junk <k|x> <len>         -> ok        <len> zero bytes (0 = an EMPTY datagram) reach the server socket from slot k's relay back
@@ -152,6 +156,16 @@
 //! forward into a false alarm.
 use crate::common::*;
 use renet::{ConnectionConfig, DisconnectReason, RenetClient, RenetServer, ServerEvent};
+
+fn conn_config(mem: Option<usize>) -> ConnectionConfig {
+    let mut c = ConnectionConfig::default();
+    if let Some(m) = mem {
+        for ch in c.server_channels_config.iter_mut().chain(c.client_channels_config.iter_mut()) {
+            ch.max_memory_usage_bytes = m;
+        }
+    }
+    c
+}
 use renet_netcode::{
     ClientAuthentication, ConnectToken, NetcodeClientTransport, NetcodeError, NetcodeServerTransport, NetcodeTransportError,
     ServerAuthentication, ServerConfig,
@@ -289,6 +303,7 @@ struct Inner {
     key: [u8; 32],
     timeout_s: i32,
     expire_s: u64,
+    chan_mem: Option<usize>,
     slots: Vec<Slot>,
     sentinel: UdpSocket,
     sentinel_addr: SocketAddr,
@@ -406,7 +421,7 @@ impl Inner {
         .map_err(|_| "err:token".to_string())?;
         let tr = NetcodeClientTransport::new(self.server_time, ClientAuthentication::Secure { connect_token: token }, sock)
             .map_err(|e| format!("err:Netcode:{}", nerr_str(&e)))?;
-        let rc = RenetClient::new(ConnectionConfig::default());
+        let rc = RenetClient::new(conn_config(self.chan_mem));
         self.slots[k].client = Some(Cl { id, rc, tr, addr, probe });
         if !self.ids.contains(&id) {
             self.ids.push(id);
@@ -503,14 +518,18 @@ impl World for TWorld {
             return "ok".into();
         }
         if t[0] == "t-new" {
-            if t.len() != 5 && t.len() != 6 {
+            if t.len() != 5 && t.len() != 6 && t.len() != 7 {
+                return BAD.into();
+            }
+            let chan_mem: Option<usize> = if t.len() == 7 { Some(num!(t[6], usize)) } else { None };
+            if chan_mem.map(|m| m < 1000).unwrap_or(false) {
                 return BAD.into();
             }
             let n = num!(t[1], usize);
             let maxc = num!(t[2], usize);
             let timeout_s = num!(t[3], i32);
             let expire_s = num!(t[4], u64);
-            let nslots = if t.len() == 6 { num!(t[5], usize) } else { n };
+            let nslots = if t.len() >= 6 { num!(t[5], usize) } else { n };
             if n > nslots || nslots == 0 || nslots > 16 || maxc == 0 || maxc > 64 {
                 return BAD.into();
             }
@@ -558,7 +577,7 @@ impl World for TWorld {
                 Err(_) => return "err:server".into(),
             };
             let mut w = Inner {
-                server: RenetServer::new(ConnectionConfig::default()),
+                server: RenetServer::new(conn_config(chan_mem)),
                 st,
                 server_addr,
                 server_probe,
@@ -566,6 +585,7 @@ impl World for TWorld {
                 key,
                 timeout_s,
                 expire_s,
+                chan_mem,
                 slots,
                 sentinel,
                 sentinel_addr,
@@ -896,6 +916,10 @@ impl World for TWorld {
                 }
                 s
             }
+            "t-rdiscall" if t.len() == 1 => {
+                w.server.disconnect_all();
+                "ok".into()
+            }
             "t-sdiscall" if t.len() == 1 => {
                 w.st.disconnect_all(&mut w.server);
                 w.collect_events();
@@ -973,10 +997,14 @@ fn parse_q(out: &str) -> Option<[Vec<usize>; 2]> {
 
 #[derive(Clone, Copy, PartialEq, Eq, Debug)]
 enum Disc {
+    /// the server / the client application submits a reliable message longer than the channel memory
+    SOverflow,
+    COverflow,
     CDisc,
     CTDisc,
     SDisc,
     SDiscAll,
+    RDiscAll,
     Silent,
     Blackhole,
 }
@@ -1026,6 +1054,9 @@ struct Drv<'a> {
     /// while a slot is blackholed the relay replays that session's very first datagram (its connection request) towards
     /// the server about once per second of virtual time
     replay_req: bool,
+    chan_mem: Option<usize>,
+    /// per slot: length of the up queue when the slot's current id first showed up in netcode's table
+    up_mark: Vec<Option<usize>>,
 }
 
 impl<'a> Drv<'a> {
@@ -1054,13 +1085,20 @@ impl<'a> Drv<'a> {
             slow_until: 0,
             stream: false,
             replay_req: false,
+            chan_mem: None,
+            up_mark: vec![None; nslots],
         };
         for k in 0..n {
             d.id[k] = Some(100 + k as u64);
             d.upd[k] = true;
         }
-        d.x(&format!("t-new {} {} {} {} {}", n, maxc, timeout_s, expire_s, nslots));
-        for m in notes {
+        if let Some(m) = notes.iter().find_map(|x| x.strip_prefix("chanmem=")).and_then(|x| x.parse::<usize>().ok()) {
+            d.chan_mem = Some(m);
+            d.x(&format!("t-new {} {} {} {} {} {}", n, maxc, timeout_s, expire_s, nslots, m));
+        } else {
+            d.x(&format!("t-new {} {} {} {} {}", n, maxc, timeout_s, expire_s, nslots));
+        }
+        for m in notes.iter().filter(|x| !x.starts_with("chanmem=")) {
             d.x(&format!("note {}", m));
         }
         d
@@ -1076,6 +1114,7 @@ impl<'a> Drv<'a> {
     fn new_client(&mut self, k: usize, id: u64) {
         self.x(&format!("t-cnew {} {}", k, id));
         self.id[k] = Some(id);
+        self.up_mark[k] = None;
         self.upd[k] = true;
         self.hole[k] = false;
         self.ended[k] = false;
@@ -1090,6 +1129,15 @@ impl<'a> Drv<'a> {
         let o = self.x("t-state");
         if let Some(s) = parse_state(&o) {
             self.st = s;
+        }
+        for k in 0..self.nslots {
+            if self.up_mark[k].is_none() && self.id[k].map(|id| self.st.nc.contains(&id)).unwrap_or(false) {
+                // (everything the slot's client sends from now on belongs to the established session)
+                let o = self.x("t-q");
+                if let Some(q) = parse_q(&o) {
+                    self.up_mark[k] = q[UP].get(k).copied();
+                }
+            }
         }
         self.x("t-acc");
     }
@@ -1252,6 +1300,73 @@ impl<'a> Drv<'a> {
         self.x("t-ssend");
         self.fwd_lossless(DOWN);
     }
+    /// a FRESH server datagram (a small reliable message, not yet forwarded) first reaches the client from a wrong source
+    /// address: nothing is obtained; then it is forwarded properly: the message is there
+    fn stray_probe(&mut self, rng: &mut Rng, dt: u64) {
+        let cands: Vec<usize> = self
+            .live_slots()
+            .into_iter()
+            .filter(|k| match (self.id[*k], self.st.cl.get(k)) {
+                (Some(id), Some(c)) => c.0 == id && c.1 == "connected" && self.st.rc.contains(&id),
+                _ => false,
+            })
+            .collect();
+        if cands.is_empty() {
+            return;
+        }
+        let k = rng.pick(&cands);
+        let id = self.id[k].unwrap_or(0);
+        self.x(&format!("t-recvall c{} 1", k));
+        self.ctr = self.ctr.wrapping_add(1);
+        let m = format!("{:04x}{}", self.ctr, hex(&rng.payload(5)));
+        if self.x(&format!("t-send s{} 1 {}", id, m)) != "ok" {
+            return;
+        }
+        self.x("t-ssend");
+        self.refresh_q();
+        let n = self.qlen[DOWN][k];
+        if n == 0 {
+            return;
+        }
+        self.x(&format!("t-stray {} {}", k, n - 1));
+        self.tick += 1;
+        self.now_us += dt;
+        self.x(&format!("t-cupd {} {}", k, dt));
+        self.x(&format!("t-recvall c{} 1", k));
+        self.x(&format!("t-fwdn down {}", k));
+        self.x(&format!("t-cupd {} 0", k));
+        self.x(&format!("t-recvall c{} 1", k));
+        self.x(&format!("t-csend {}", k));
+        self.fwd_lossless(UP);
+    }
+    /// after everything has settled: the relay replays what the clients of ended sessions sent AFTER their session was
+    /// up (keep-alives, payloads, the disconnect — not the handshake, whose replay would re-open the session: the
+    /// recorded finding): no event, no change
+    fn late_replay(&mut self, rng: &mut Rng) {
+        let ended: Vec<usize> = (0..self.nslots).filter(|k| self.ended[*k] && self.up_mark[*k].is_some() && self.id[*k].map(|id| !self.st.nc.contains(&id) && !self.st.rc.contains(&id)).unwrap_or(false)).collect();
+        if ended.is_empty() {
+            return;
+        }
+        let k = rng.pick(&ended);
+        self.refresh_q();
+        let from = self.up_mark[k].unwrap_or(0);
+        let to = self.qlen[UP][k].min(from + 8);
+        if from >= to {
+            return;
+        }
+        self.x("t-state");
+        self.x(&format!("note late-replay {}", k));
+        for i in from..to {
+            self.x(&format!("t-fwd up {} {}", k, i));
+        }
+        self.x("t-supd 20000");
+        for _ in 0..4 {
+            if self.x("t-ev") == "none" {
+                break;
+            }
+        }
+        self.x("t-state");
+    }
     fn round_lossless(&mut self, rng: &mut Rng, dt: u64, traffic: u64) {
         self.tick += 1;
         let before = self.now_us / 1_000_000;
@@ -1353,6 +1468,17 @@ impl<'a> Drv<'a> {
             self.slow_until = self.slow_until.max(self.now_us + (self.timeout_s * 1000 + 1500) * 1000);
         }
         match kind {
+            Disc::SOverflow | Disc::COverflow => {
+                if let (Some(m), Some(id)) = (self.chan_mem, self.id[k]) {
+                    let big = hex(&vec![0x6fu8; m + 1]);
+                    if kind == Disc::SOverflow {
+                        self.x(&format!("t-send s{} 1 {}", id, big));
+                    } else {
+                        self.x(&format!("t-send c{} 2 {}", k, big));
+                    }
+                    self.ended[k] = true;
+                }
+            }
             Disc::CDisc => {
                 self.x(&format!("t-cdisc {}", k));
                 self.ended[k] = true;
@@ -1365,6 +1491,14 @@ impl<'a> Drv<'a> {
                 if let Some(id) = self.id[k] {
                     self.x(&format!("t-sdisc {}", id));
                     self.ended[k] = true;
+                }
+            }
+            Disc::RDiscAll => {
+                self.x("t-rdiscall");
+                for k in 0..self.nslots {
+                    if self.id[k].is_some() {
+                        self.ended[k] = true;
+                    }
                 }
             }
             Disc::SDiscAll => {
@@ -1422,7 +1556,10 @@ fn script_lossless(rng: &mut Rng, _tier: Tier, ex: &mut dyn FnMut(&str) -> Strin
     let n = pick_n(rng);
     let maxc = n + rng.below(2) as usize;
     let timeout_s = rng.pick(&[1u64, 2, 3, 5]);
-    let mut d = Drv::start(ex, tag, n, maxc, timeout_s, 60, n, &["lossless"]);
+    // (1 case in 5: channels with 40 kB of memory — far above what the script's traffic keeps in flight, and small
+    // enough for one deliberately oversized reliable message to end a session from the message layer)
+    let small_mem = rng.chance(1, 5);
+    let mut d = Drv::start(ex, tag, n, maxc, timeout_s, 60, n, if small_mem { &["lossless", "chanmem=40000"] } else { &["lossless"] });
     let dt = rng.pick(&[16_000u64, 50_000, 100_000, 250_000, 300_000]);
     // handshake: 4 rounds bring every layer to `connected`
     for _ in 0..rng.range(3, 5) {
@@ -1434,6 +1571,9 @@ fn script_lossless(rng: &mut Rng, _tier: Tier, ex: &mut dyn FnMut(&str) -> Strin
         d.reads(rng, false);
         if rng.chance(1, 3) {
             d.junk_probe(rng, dt);
+        }
+        if rng.chance(1, 4) {
+            d.stray_probe(rng, dt);
         }
     }
     d.replay_req = rng.chance(1, 2);
@@ -1447,11 +1587,12 @@ fn script_lossless(rng: &mut Rng, _tier: Tier, ex: &mut dyn FnMut(&str) -> Strin
     d.x("note healed");
     // the end of the sessions
     if rng.chance(1, 6) {
-        d.disc(Disc::SDiscAll, 0);
+        d.disc(if rng.chance(1, 2) { Disc::SDiscAll } else { Disc::RDiscAll }, 0);
     } else {
         for k in 0..n {
             let kind = match rng.below(7) {
                 0 => continue,
+                1 | 2 | 3 if small_mem && rng.chance(1, 2) => rng.pick(&[Disc::SOverflow, Disc::COverflow]),
                 1 => Disc::CDisc,
                 2 => Disc::CTDisc,
                 3 => Disc::SDisc,
@@ -1482,6 +1623,9 @@ fn script_lossless(rng: &mut Rng, _tier: Tier, ex: &mut dyn FnMut(&str) -> Strin
         d.round_lossless(rng, dt.max(50_000), 0);
     }
     d.settle();
+    if rng.chance(1, 2) {
+        d.late_replay(rng);
+    }
 }
 
 const GHOST_PROBE: bool = false;
@@ -1517,6 +1661,20 @@ fn script_faulty(rng: &mut Rng, tier: Tier, ex: &mut dyn FnMut(&str) -> String) 
         }
         d.round_faulty(rng, dt, if r >= 2 { 2 } else { 1 }, &f);
         d.reads(rng, false);
+    }
+    if !benign && rng.chance(1, 2) {
+        // a blackout of one session that stays short of its timeout by 0.8 s: everything of that slot is lost in both
+        // directions for that long, the others go on; a session may end here only if it had been starved before
+        let live = d.live_slots();
+        if !live.is_empty() {
+            let k = rng.pick(&live);
+            d.hole[k] = true;
+            let until = d.now_us + timeout_s * 1_000_000 - 800_000;
+            while d.now_us < until {
+                d.round_faulty(rng, 250_000, 0, &Faults::default());
+            }
+            d.hole[k] = false;
+        }
     }
     d.events_and_state();
     d.x("note heal-start");
@@ -1847,6 +2005,8 @@ struct Ctx {
     sc: HashMap<usize, (bool, usize)>,
     /// per session: (stime, ctime[k], cs pairs, sc pairs) when `must_end` was set
     snap: HashMap<usize, (u64, u64, usize, usize)>,
+    /// `max_memory_usage_bytes` of every channel when `t-new` set one
+    chan_mem: Option<usize>,
 }
 
 /// Per (direction, slot): has everything the sender emitted been forwarded (genuinely, at least
@@ -2090,6 +2250,7 @@ impl Ctx {
         }
         match t[0] {
             "t-new" if out == "ok" && t.len() >= 5 => {
+                self.chan_mem = if t.len() == 7 { t[6].parse().ok() } else { None };
                 let n: usize = t[1].parse().unwrap_or(0);
                 for k in 0..n {
                     self.add(k, 100 + k as u64);
@@ -2115,6 +2276,23 @@ impl Ctx {
                     self.last_state = Some((i, st));
                 }
             }
+            // a reliable message longer than the whole channel memory: renet disconnects that connection with
+            // SendChannelError — a disconnect decided by the message layer, as sharp as an explicit one
+            "t-send" if t.len() == 4 && out == "ok" && (t[2] == "1" || t[2] == "2") && self.chan_mem.map(|m| t[3].len() / 2 > m).unwrap_or(false) => {
+                let sess = if let Some(k) = t[1].strip_prefix('c') {
+                    k.parse().ok().and_then(|k: usize| self.slot.get(&k).copied())
+                } else {
+                    self.drained = false;
+                    t[1].strip_prefix('s').and_then(|x| x.parse().ok()).and_then(|id: u64| self.by_id.get(&id).copied())
+                };
+                if let Some(s) = sess {
+                    self.sess[s].disc_op.get_or_insert(i);
+                    if self.sess[s].must_end.is_none() {
+                        self.sess[s].must_end = Some(i);
+                        self.sess[s].sharp = true;
+                    }
+                }
+            }
             "t-cdisc" | "t-ctdisc" if t.len() == 2 && out == "ok" => {
                 if let Some(s) = t[1].parse().ok().and_then(|k: usize| self.slot.get(&k).copied()) {
                     self.sess[s].disc_op.get_or_insert(i);
@@ -2133,6 +2311,17 @@ impl Ctx {
                     if known && self.sess[s].must_end.is_none() {
                         self.sess[s].must_end = Some(i);
                         self.sess[s].sharp = true;
+                    }
+                }
+            }
+            "t-rdiscall" => {
+                self.drained = false;
+                let rc: Vec<u64> = self.last_state.as_ref().map(|(_, st)| st.rc.clone()).unwrap_or_default();
+                for s in self.sess.iter_mut() {
+                    s.disc_op.get_or_insert(i);
+                    if rc.contains(&s.id) && s.must_end.is_none() {
+                        s.must_end = Some(i);
+                        s.sharp = true;
                     }
                 }
             }
@@ -2236,6 +2425,91 @@ fn oracle_events(ops: &[String], outs: &[String]) -> Option<OracleFail> {
                 by_ev.sort();
                 if by_ev != st.rc {
                     return fail(i, "events-vs-connected-set", format!("ids whose last event is `connected`: {:?}, renet connected set: {:?}", by_ev, st.rc));
+                }
+            }
+            _ => {}
+        }
+    }
+    None
+}
+
+/// (a') "the clients the message layer reports connected are exactly those whose netcode handshake completed", client
+/// side: a RenetClient that reports `connected` belongs to a session the server reported with a `connected <id>` event
+/// and its netcode client is not disconnected; and (tp-lossless, at `note healed`) every session the script has not
+/// ended, forwarded in order since the start and updated at least six times on both sides, is connected everywhere:
+/// in renet's set, in netcode's, and on its client.
+fn oracle_client_status(ops: &[String], outs: &[String]) -> Option<OracleFail> {
+    let mut c = Ctx::default();
+    let mut connected_ev: HashSet<u64> = HashSet::new();
+    // slot -> (t-state at which "connected but netcode down" was first seen, a t-cupd of the slot happened since)
+    let mut lag: HashMap<usize, (usize, bool)> = HashMap::new();
+    for (i, (op, out)) in ops.iter().zip(outs.iter()).enumerate() {
+        let t = toks(op);
+        c.step(i, &t, out);
+        match t[0] {
+            "t-ev" => {
+                let e: Vec<&str> = out.split(' ').collect();
+                if e.len() >= 2 && e[0] == "connected" {
+                    if let Ok(id) = e[1].parse::<u64>() {
+                        connected_ev.insert(id);
+                    }
+                }
+            }
+            "t-cupd" if t.len() == 3 => {
+                if let Ok(k) = t[1].parse::<usize>() {
+                    if let Some(x) = lag.get_mut(&k) {
+                        x.1 = true;
+                    }
+                }
+            }
+            "t-cnew" if t.len() == 3 => {
+                if let Ok(k) = t[1].parse::<usize>() {
+                    lag.remove(&k);
+                }
+            }
+            "t-state" => {
+                let st = parse_state(out)?;
+                for (k, (id, rs, nr)) in st.cl.iter() {
+                    if rs != "connected" {
+                        continue;
+                    }
+                    if !connected_ev.contains(id) {
+                        return fail(i, "client-connected-without-server-event", format!("the RenetClient of slot {} (id {}) reports connected, the server never reported `connected {}`", k, id, id));
+                    }
+                    // (the RenetClient learns of a netcode-level end at the NEXT transport update: one update of lag is
+                    // how the glue works)
+                    if nr != "-" {
+                        match lag.get(k) {
+                            Some((_, true)) => {
+                                return fail(i, "client-connected-while-netcode-down", format!("the RenetClient of slot {} (id {}) still reports connected a transport update after its netcode client was seen disconnected ({})", k, id, nr));
+                            }
+                            Some(_) => {}
+                            None => {
+                                lag.insert(*k, (i, false));
+                            }
+                        }
+                    }
+                }
+                lag.retain(|k, _| st.cl.get(k).map(|x| x.1 == "connected" && x.2 != "-").unwrap_or(false));
+            }
+            "note" if t.len() == 2 && t[1] == "healed" && c.mode == "lossless" && !c.churn => {
+                let Some((_, st)) = c.last_state.clone() else { continue };
+                for s in c.sess.iter() {
+                    if s.disc_op.is_some() || s.replaced || s.silent || c.holes.contains(&s.k) || !c.in_order_since(0, s.k) || !c.lossless_since(0, s.k) {
+                        continue;
+                    }
+                    let pairs = c.cs.get(&s.k).map(|x| x.1).unwrap_or(0).min(c.sc.get(&s.k).map(|x| x.1).unwrap_or(0));
+                    if pairs < 6 {
+                        continue;
+                    }
+                    let client_ok = st.cl.get(&s.k).map(|x| x.0 == s.id && x.1 == "connected").unwrap_or(false);
+                    if !st.rc.contains(&s.id) || !st.nc.contains(&s.id) || !client_ok {
+                        return fail(
+                            i,
+                            "handshake-not-completed",
+                            format!("session {} (slot {}): {} lossless in-order update pairs, yet renet connected = {}, netcode connected = {}, client status = {:?}", s.id, s.k, pairs, st.rc.contains(&s.id), st.nc.contains(&s.id), st.cl.get(&s.k)),
+                        );
+                    }
                 }
             }
             _ => {}
@@ -2450,7 +2724,10 @@ fn oracle_channels(ops: &[String], outs: &[String]) -> Option<OracleFail> {
                         continue;
                     }
                     let k = c.sess[*s].k;
-                    if !c.lossless_since(hs + 1, k) {
+                    // (`t-mark` right after `heal-start` writes off what the faulty phase left in the relay: those losses
+                    // are what the heal has to repair — they belong to the faulty phase, not to the lossless one)
+                    let from = if ops.get(hs + 1).map(|o| o == "t-mark").unwrap_or(false) { hs + 2 } else { hs + 1 };
+                    if !c.lossless_since(from, k) {
                         continue;
                     }
                     let pairs = c.cs.get(&k).map(|x| x.1).unwrap_or(0).min(c.sc.get(&k).map(|x| x.1).unwrap_or(0));
@@ -2476,9 +2753,58 @@ fn oracle_channels(ops: &[String], outs: &[String]) -> Option<OracleFail> {
 /// reason or the server's Disconnect after ITS time-out; server event reason `Transport`).
 fn oracle_no_spurious_end(ops: &[String], outs: &[String]) -> Option<OracleFail> {
     let mut c = Ctx::default();
+    // lossy traces, "other than through timeouts": the idle times `t-acc` prints say whether a timeout period really passed
+    //   s_idle_prev: time_since_last_received_packet(id) before the latest server update, last_d: that update's duration
+    //   c_idle / c_elapsed: the same per client slot, plus the durations of its updates since
+    let mut s_idle: HashMap<u64, u128> = HashMap::new();
+    let mut s_idle_prev: HashMap<u64, u128> = HashMap::new();
+    let mut last_d: u128 = 0;
+    let mut c_idle: HashMap<usize, u128> = HashMap::new();
+    let mut c_elapsed: HashMap<usize, u128> = HashMap::new();
+    let mut srv_ended: HashSet<u64> = HashSet::new();
+    let mut client_down: HashSet<usize> = HashSet::new();
     for (i, (op, out)) in ops.iter().zip(outs.iter()).enumerate() {
         let t = toks(op);
         c.step(i, &t, out);
+        match t[0] {
+            "t-supd" if t.len() == 2 => {
+                s_idle_prev = std::mem::take(&mut s_idle);
+                last_d = t[1].parse::<u128>().unwrap_or(0) * 1000;
+            }
+            "t-cupd" if t.len() == 3 => {
+                if let (Ok(k), Ok(d)) = (t[1].parse::<usize>(), t[2].parse::<u128>()) {
+                    *c_elapsed.entry(k).or_insert(0) += d * 1000;
+                }
+            }
+            "t-cnew" if t.len() == 3 => {
+                if let Ok(k) = t[1].parse::<usize>() {
+                    c_idle.remove(&k);
+                    c_elapsed.remove(&k);
+                }
+            }
+            "t-acc" if out.starts_with("acc ") => {
+                s_idle.clear();
+                for f in out.split(' ').skip(1) {
+                    let Some((k, v)) = f.split_once('=') else { continue };
+                    if let Some(id) = k.strip_prefix('s').and_then(|x| x.parse::<u64>().ok()) {
+                        if let Ok(ns) = v.parse::<u128>() {
+                            s_idle.insert(id, ns);
+                        }
+                    } else if let Some(slot) = k.strip_prefix('c').and_then(|x| x.parse::<usize>().ok()) {
+                        if let Some(ns) = v.rsplit(':').next().and_then(|x| x.parse::<u128>().ok()) {
+                            c_idle.insert(slot, ns);
+                            c_elapsed.insert(slot, 0);
+                        }
+                    }
+                }
+            }
+            "t-ev" if out.starts_with("disconnected ") => {
+                if let Some(id) = out.split(' ').nth(1).and_then(|x| x.parse::<u64>().ok()) {
+                    srv_ended.insert(id);
+                }
+            }
+            _ => {}
+        }
         if c.mode.is_empty() {
             continue;
         }
@@ -2535,6 +2861,27 @@ fn oracle_no_spurious_end(ops: &[String], outs: &[String]) -> Option<OracleFail>
             if !ok {
                 return fail(i, &format!("ended-not-by-timeout-{}", side), format!("session {} (slot {}) ended on the {} side with {} / {} under mere datagram interference", se.id, se.k, side, rs, nr));
             }
+            // … and a timeout needs its time
+            let timeout_ns = c.timeout_us as u128 * 1000;
+            if client_side {
+                let first = client_down.insert(s);
+                if first && nr == "DisconnectedByServer" && !srv_ended.contains(&se.id) {
+                    return fail(i, "client-ended-by-server-without-server-end", format!("session {} (slot {}): the client reports DisconnectedByServer, the server never reported that session disconnected", se.id, se.k));
+                }
+                if first && timeout_ns > 0 && matches!(nr.as_str(), "ConnectionTimedOut" | "ConnectionRequestTimedOut" | "ConnectionResponseTimedOut") {
+                    if let (Some(idle), Some(el)) = (c_idle.get(&se.k), c_elapsed.get(&se.k)) {
+                        if idle + el <= timeout_ns {
+                            return fail(i, "ended-before-timeout-client", format!("session {} (slot {}): the client reports {} although only {} ns passed since it last heard from the server (timeout {} ns)", se.id, se.k, nr, idle + el, timeout_ns));
+                        }
+                    }
+                }
+            } else if timeout_ns > 0 && !client_down.contains(&s) {
+                if let Some(idle) = s_idle_prev.get(&se.id) {
+                    if idle + last_d <= timeout_ns {
+                        return fail(i, "ended-before-timeout-server", format!("session {} (slot {}): the server ended it (Transport) although only {} ns had passed since it last heard from that client (timeout {} ns) and the client had not ended it", se.id, se.k, idle + last_d, timeout_ns));
+                    }
+                }
+            }
         }
     }
     None
@@ -2557,7 +2904,7 @@ fn oracle_accessors(ops: &[String], outs: &[String]) -> Option<OracleFail> {
             "t-new" if t.len() >= 5 && outs[i] == "ok" => {
                 let n: usize = t[1].parse().unwrap_or(0);
                 max = t[2].parse().ok();
-                nslots = if t.len() == 6 { t[5].parse().unwrap_or(0) } else { n as u64 };
+                nslots = if t.len() >= 6 { t[5].parse().unwrap_or(0) } else { n as u64 };
                 ids.clear();
                 for k in 0..n {
                     ids.insert(k, 100 + k as u64);
@@ -2680,6 +3027,170 @@ fn oracle_junk_no_delay(ops: &[String], outs: &[String]) -> Option<OracleFail> {
     None
 }
 
+/// (i) a datagram from a wrong source address is discarded by the client transport. Pattern (consecutive ops):
+/// `t-recvall c<k> <ch>` · `t-send s<id> <ch> <m>` (ok) · `t-ssend` · `t-q` · `t-stray <k> <i>` (ok) · `t-cupd <k> <d>` ·
+/// `t-recvall c<k> <ch>`: <m> was handed to the server application only just now and has reached the client only through
+/// the stray datagram: it is not among the messages obtained.
+fn oracle_stray_ignored(ops: &[String], outs: &[String]) -> Option<OracleFail> {
+    let n = ops.len().min(outs.len());
+    for i in 1..n {
+        let t = toks(&ops[i]);
+        if t.len() != 4 || t[0] != "t-send" || !t[1].starts_with('s') || outs[i] != "ok" || i + 5 >= n {
+            continue;
+        }
+        let u = toks(&ops[i + 3]);
+        if ops[i + 1] != "t-ssend" || ops[i + 2] != "t-q" || u.len() != 3 || u[0] != "t-stray" || outs[i + 3] != "ok" {
+            continue;
+        }
+        let k = u[1];
+        let recv = format!("t-recvall c{} {}", k, t[2]);
+        if ops[i - 1] != recv || !ops[i + 4].starts_with(&format!("t-cupd {} ", k)) || ops[i + 5] != recv {
+            continue;
+        }
+        if outs[i + 5].split(' ').skip(2).any(|x| x == t[3]) {
+            return fail(i + 5, "stray-datagram-accepted", format!("client slot {} obtained {} although the only datagram carrying it reached its socket from an address that is not its server's", k, t[3]));
+        }
+    }
+    None
+}
+
+/// (j) replays after the end: between `note late-replay <k>` and the next `t-state` the relay re-sends datagrams the
+/// client of an ended session had sent while its session was up; the server reports no event and its state line equals
+/// the one taken right before the note.
+fn oracle_late_replay_quiet(ops: &[String], outs: &[String]) -> Option<OracleFail> {
+    let n = ops.len().min(outs.len());
+    for i in 1..n {
+        if !ops[i].starts_with("note late-replay ") || ops[i - 1] != "t-state" {
+            continue;
+        }
+        let before = &outs[i - 1];
+        for j in i + 1..n {
+            let t = toks(&ops[j]);
+            match t[0] {
+                "t-fwd" | "t-supd" => {}
+                "t-ev" => {
+                    if outs[j] != "none" && outs[j] != "panic" && outs[j] != "dead" {
+                        return fail(j, "late-replay-event", format!("replayed datagrams of an ended session produced the server event `{}`", outs[j]));
+                    }
+                }
+                "t-state" => {
+                    if outs[j] != *before && outs[j].starts_with("st ") {
+                        return fail(j, "late-replay-changed-state", format!("replayed datagrams of an ended session changed the state: `{}` -> `{}`", before, outs[j]));
+                    }
+                    break;
+                }
+                _ => break,
+            }
+        }
+    }
+    None
+}
+
+/// (k) "each … disconnect reaches the application exactly once with the right id", the REASON of a scripted end in a
+/// lossless in-order trace: who decided it is what both sides report.
+///   t-sdisc / t-rdiscall : server event DisconnectedByServer · client renet Transport, netcode DisconnectedByServer
+///   t-sdiscall           : server event Transport            · client renet Transport, netcode DisconnectedByServer
+///   t-cdisc              : server event Transport            · client renet DisconnectedByClient, netcode DisconnectedByClient
+///   t-ctdisc             : server event Transport            · client renet Transport, netcode DisconnectedByClient
+///   oversized reliable t-send s<id> : server event SendChannelError(..) · client Transport / DisconnectedByServer
+///   oversized reliable t-send c<k>  : server event Transport · client renet SendChannelError(..), netcode DisconnectedByClient
+/// Judged for sessions that were up on both sides, ended by exactly one scripted call, never starved, black-holed or silent.
+fn oracle_disconnect_reasons(ops: &[String], outs: &[String]) -> Option<OracleFail> {
+    let mut c = Ctx::default();
+    // session -> (kind, ambiguous)
+    let mut kind: HashMap<usize, (String, bool)> = HashMap::new();
+    let mut was_up: HashSet<usize> = HashSet::new();
+    for (i, (op, out)) in ops.iter().zip(outs.iter()).enumerate() {
+        let t = toks(op);
+        let had: Vec<Option<usize>> = c.sess.iter().map(|s| s.disc_op).collect();
+        c.step(i, &t, out);
+        if c.mode != "lossless" || c.churn {
+            continue;
+        }
+        // which scripted call ended which session
+        for (s, se) in c.sess.iter().enumerate() {
+            if se.disc_op == Some(i) && had.get(s).copied().flatten().is_none() {
+                let k = match t[0] {
+                    "t-send" if t[1].starts_with('s') => "srv-overflow",
+                    "t-send" => "cli-overflow",
+                    x => x,
+                };
+                kind.insert(s, (k.to_string(), false));
+            } else if se.disc_op.is_some() && se.disc_op != Some(i) && matches!(t[0], "t-sdisc" | "t-rdiscall" | "t-sdiscall" | "t-cdisc" | "t-ctdisc") {
+                // a second scripted end that may concern this session: who was first on the wire is not decided here
+                let concerns = match t[0] {
+                    "t-sdisc" => t.get(1).and_then(|x| x.parse::<u64>().ok()) == Some(se.id),
+                    "t-cdisc" | "t-ctdisc" => t.get(1).and_then(|x| x.parse::<usize>().ok()) == Some(se.k),
+                    _ => true,
+                };
+                if concerns {
+                    if let Some(e) = kind.get_mut(&s) {
+                        e.1 = true;
+                    }
+                }
+            }
+        }
+        if t[0] == "t-state" {
+            if let Some(st) = parse_state(out) {
+                for (s, se) in c.sess.iter().enumerate() {
+                    if st.rc.contains(&se.id) && st.cl.get(&se.k).map(|x| x.0 == se.id && x.1 == "connected").unwrap_or(false) {
+                        was_up.insert(s);
+                    }
+                }
+            }
+        }
+        let judged = |s: usize, c: &Ctx| -> Option<String> {
+            let se = &c.sess[s];
+            let (k, amb) = kind.get(&s)?;
+            if *amb || !was_up.contains(&s) || se.silent || se.replaced || c.holes.contains(&se.k) || !c.lossless_since(0, se.k) || !c.in_order_since(0, se.k) {
+                return None;
+            }
+            Some(k.clone())
+        };
+        match t[0] {
+            "t-ev" if out.starts_with("disconnected ") => {
+                let e: Vec<&str> = out.splitn(3, ' ').collect();
+                let Some(s) = e.get(1).and_then(|x| x.parse::<u64>().ok()).and_then(|id| c.by_id.get(&id).copied()) else { continue };
+                if let Some(k) = judged(s, &c) {
+                    let reason = e.get(2).copied().unwrap_or("");
+                    let ok = match k.as_str() {
+                        "t-sdisc" | "t-rdiscall" => reason == "DisconnectedByServer",
+                        "srv-overflow" => reason.starts_with("SendChannelError("),
+                        _ => reason == "Transport",
+                    };
+                    if !ok {
+                        return fail(i, &format!("wrong-disconnect-reason:server:{}", k), format!("session {} was ended by `{}`; the server event says `{}`", c.sess[s].id, k, reason));
+                    }
+                }
+            }
+            "t-state" => {
+                let Some(st) = parse_state(out) else { continue };
+                for (slot, (id, rs, nr)) in st.cl.iter() {
+                    let Some(s) = c.slot.get(slot).copied() else { continue };
+                    if c.sess[s].id != *id || !rs.starts_with("disc:") || nr == "-" {
+                        continue; // (both layers of the client have to be down: the renet status lags one update)
+                    }
+                    if let Some(k) = judged(s, &c) {
+                        let r = rs.trim_start_matches("disc:");
+                        let ok = match k.as_str() {
+                            "t-sdisc" | "t-rdiscall" | "t-sdiscall" | "srv-overflow" => r == "Transport" && nr == "DisconnectedByServer",
+                            "t-cdisc" => r == "DisconnectedByClient" && nr == "DisconnectedByClient",
+                            "t-ctdisc" => r == "Transport" && nr == "DisconnectedByClient",
+                            "cli-overflow" => r.starts_with("SendChannelError(") && nr == "DisconnectedByClient",
+                            _ => true,
+                        };
+                        if !ok {
+                            return fail(i, &format!("wrong-disconnect-reason:client:{}", k), format!("session {} was ended by `{}`; its client reports {} / {}", id, k, r, nr));
+                        }
+                    }
+                }
+            }
+            _ => {}
+        }
+    }
+    None
+}
+
 /// (f) nothing unwinds
 fn oracle_no_panic(ops: &[String], outs: &[String]) -> Option<OracleFail> {
     for (i, o) in outs.iter().enumerate() {
@@ -2699,6 +3210,11 @@ pub fn oracles() -> Vec<Oracle> {
         Oracle { prop: "C20", name: "tp-channels", engines: &["tp-"], check: oracle_channels },
         Oracle { prop: "C20", name: "tp-no-spurious-end", engines: &["tp-"], check: oracle_no_spurious_end },
         Oracle { prop: "C20", name: "tp-no-panic", engines: &["tp-"], check: oracle_no_panic },
+        Oracle { prop: "C20", name: "tp-stray-ignored", engines: &["tp-"], check: oracle_stray_ignored },
+        Oracle { prop: "C20", name: "tp-late-replay-quiet", engines: &["tp-"], check: oracle_late_replay_quiet },
+        Oracle { prop: "C20", name: "tp-disconnect-reasons", engines: &["tp-lossless"], check: oracle_disconnect_reasons },
+        Oracle { prop: "C11", name: "tp-channels", engines: &["tp-lossless"], check: oracle_channels },
+        Oracle { prop: "C20", name: "tp-client-status", engines: &["tp-"], check: oracle_client_status },
         Oracle { prop: "C20", name: "tp-accessors", engines: &["tp-"], check: oracle_accessors },
         Oracle { prop: "C20", name: "tp-junk-no-delay", engines: &["tp-"], check: oracle_junk_no_delay },
         Oracle { prop: "C11", name: "tp-junk-no-delay", engines: &["tp-"], check: oracle_junk_no_delay },
